@@ -329,6 +329,11 @@ class _Part:
 
     def write(self, key, value):
         par = self.parent.plain
+        if isinstance(key, tuple) and len(key) == par.ndim and all(isinstance(k, (int, _np.integer)) for k in key):
+            old = Cx.of(par[key])
+            v = value if isinstance(value, Alg) else Alg.of(value)
+            par[key] = Cx(v, old.im) if self.which == "re" else Cx(old.re, v)
+            return
         sel = _np.empty(par.shape, dtype=object)
         idxs = _np.empty(par.shape, dtype=object)
         for idx in _np.ndindex(*par.shape):
